@@ -765,6 +765,7 @@ def run_shard(sink, tier, seed, shard):  # noqa: C901
         sink.count(f'variant:{variant}')
     if tier != 'quick':
         replay_generators(sink, seed)
+        replay_repo_suite(sink)
 
 
 def replay_generators(sink, seed):
@@ -793,6 +794,58 @@ def replay_generators(sink, seed):
     import shutil
 
     shutil.rmtree(work, ignore_errors=True)
+
+
+def replay_repo_suite(sink):
+    """Thorough: the repository's own test-suite (tens of thousands of maintainers' inputs) run against the ASan+UBSan build of the
+    working tree; the sanitizer log and worker deaths are the oracle, the tests' own assertions are only counted."""
+    import re
+    import shutil
+    import subprocess
+    import tempfile
+
+    tests = os.path.join(build.repo(), 'tests')
+    log_path = os.path.join(build.VERIF, '.work', f'c16-suite-{os.getpid()}-san')
+    env = build.env_for('asan', log_path=log_path)
+    env.pop('OPTREE_VERIF', None)
+    work = tempfile.mkdtemp(prefix='c16s-', dir=os.path.join(build.VERIF, '.work'))
+    try:
+        from concurrent.futures import ThreadPoolExecutor
+
+        files = sorted(f for f in os.listdir(tests) if f.startswith('test_') and f.endswith('.py'))
+
+        def one(f):
+            # one interpreter per test file (pytest-xdist cannot be used: parametrised ids contain object addresses, which differ between
+            # ASan workers)
+            cwd = os.path.join(work, f[:-3])
+            os.makedirs(cwd, exist_ok=True)
+            cmd = [build.PY, '-m', 'pytest', '-q', '-p', 'no:cacheprovider', '--timeout=2400', '--rootdir', cwd, '-c', os.devnull, os.path.join(tests, f)]
+            try:
+                r = subprocess.run(cmd, env=env, cwd=cwd, capture_output=True, text=True, timeout=5400)
+            except subprocess.TimeoutExpired:
+                return f, None, ''
+            return f, r.returncode, r.stdout[-3000:] + r.stderr[-500:]
+
+        with ThreadPoolExecutor(len(files)) as ex:
+            results = list(ex.map(one, files))
+        for f, rc, tail in results:
+            if rc is None:
+                sink.notes.append(f'repository suite under ASan: watchdog fired for {f} (inconclusive for that file)')
+                sink.count('repo-suite-under-asan:timeouts')
+                continue
+            m = re.search(r'(\d+) passed', tail)
+            sink.count('repo-suite-under-asan:tests-passed', int(m.group(1)) if m else 0)
+            sink.count('repo-suite-under-asan:files')
+            m = re.search(r'(\d+) failed', tail)
+            if m:
+                sink.count('repo-suite-under-asan:tests-failed', int(m.group(1)))
+                sink.notes.append(f'repository tests failing on the ASan build in {f} (their assertions are not this property): ' + tail[-400:])
+            if rc < 0 or rc > 5:
+                sink.violation(f'crash/repo-suite/{f}/rc={rc}', 'no input of the repository suite may crash the interpreter (ASan build)', dict(part='repo-suite', file=f, rc=rc), tail[-1500:])
+        for rep in sanlog.collect(log_path):
+            sink.violation(f'sanitizer/{rep["kind"]}/{rep["frame"]}', 'no ASan/UBSan report while running the repository suite', dict(variant='asan', part='repo-suite'), rep['text'][:1800])
+    finally:
+        shutil.rmtree(work, ignore_errors=True)
 
 
 def finalize(sink, tier, seed):
